@@ -9,7 +9,8 @@ import base64, hashlib, hmac, json, os, struct, sys, traceback, zlib
 # ---------------------------------------------------------------------------
 KEYS_JSON = json.load(open(os.path.join(os.path.dirname(os.path.abspath(__file__)), "c16_keys.json")))
 
-KEY_NAMES = ["oct16", "oct32", "oct64", "rsa", "ec256", "ec384", "ec521", "ed25519", "ed448", "x25519", "x448"]
+KEY_NAMES = ["oct16", "oct32", "oct64", "rsa", "ec256", "ec384", "ec521", "ed25519", "ed448", "x25519", "x448",
+             "ec256k", "ec256b", "x25519b", "x448b"]
 SET_NAMES = ["set:all", "set:oct16", "set:empty", "set:nokid2"]
 
 JWS_ALGS = ["none", "HS256", "HS384", "HS512", "RS256", "RS384", "RS512", "ES256", "ES384", "ES512",
@@ -17,10 +18,43 @@ JWS_ALGS = ["none", "HS256", "HS384", "HS512", "RS256", "RS384", "RS512", "ES256
 JWE_ALGS = ["RSA1_5", "RSA-OAEP", "RSA-OAEP-256", "A128KW", "A192KW", "A256KW", "dir", "ECDH-ES",
             "ECDH-ES+A128KW", "ECDH-ES+A192KW", "ECDH-ES+A256KW", "A128GCMKW", "A192GCMKW", "A256GCMKW",
             "PBES2-HS256+A128KW", "PBES2-HS384+A192KW", "PBES2-HS512+A256KW"]
-JWE_ENCS = ["A128CBC-HS256", "A192CBC-HS384", "A256CBC-HS512", "A128GCM", "A192GCM", "A256GCM"]
+JWE_ALGS += ["ECDH-1PU", "ECDH-1PU+A128KW", "ECDH-1PU+A192KW", "ECDH-1PU+A256KW"]      # drafts (registered by ensure_drafts)
+JWE_ENCS = ["A128CBC-HS256", "A192CBC-HS384", "A256CBC-HS512", "A128GCM", "A192GCM", "A256GCM", "C20P", "XC20P"]
 JWE_ALL = JWE_ALGS + JWE_ENCS + ["DEF"]
 
 _keys_cache = {}
+
+
+_drafts_done = []
+
+
+def ensure_drafts():
+    """register the draft algorithms (ECDH-1PU, C20P / XC20P) as an application would"""
+    if not _drafts_done:
+        from joserfc.drafts.jwe_ecdh_1pu import register_ecdh_1pu
+        from joserfc.drafts.jwe_chacha20 import register_chaha20_poly1305
+        register_ecdh_1pu()
+        register_chaha20_poly1305()
+        _drafts_done.append(1)
+
+
+CALLABLES = ["call:oct16", "call:oct32", "call:rsa", "call:ec256", "call:set:all", "call:set:empty", "call:str", "call:bytes",
+             "call:emptystr", "call:none", "call:int", "call:dict", "call:list"]
+
+
+def resolve_key(keyname):
+    """'name' | 'call:<what>' (a callable key) ; optional '+s:<sender>' suffix -> (key argument, sender_key or None)"""
+    sender = None
+    if "+s:" in keyname:
+        keyname, sn = keyname.split("+s:", 1)
+        sender = keys()[sn]
+    if keyname.startswith("call:"):
+        what = keyname[5:]
+        ret = {"str": "secret-secret-secret-secret-1234", "bytes": b"0123456789abcdef", "emptystr": "", "none": None, "int": 5,
+               "dict": dict(KEYS_JSON["oct16"]), "list": []}
+        val = ret[what] if what in ret else keys()[what]
+        return (lambda obj: val), sender
+    return keys()[keyname], sender
 
 
 def keys():
@@ -28,6 +62,7 @@ def keys():
     except ensure_kid, and every fixed key already has a kid)."""
     if _keys_cache:
         return _keys_cache
+    ensure_drafts()
     from joserfc.jwk import JWKRegistry, KeySet
     for n in KEY_NAMES:
         _keys_cache[n] = JWKRegistry.import_key(dict(KEYS_JSON[n]))
@@ -156,11 +191,19 @@ def cbc_encrypt(cek: bytes, iv: bytes, pt: bytes, aad: bytes):
     return ct, tag
 
 
-ENC_CEK = {"A128CBC-HS256": 32, "A192CBC-HS384": 48, "A256CBC-HS512": 64, "A128GCM": 16, "A192GCM": 24, "A256GCM": 32}
+ENC_CEK = {"A128CBC-HS256": 32, "A192CBC-HS384": 48, "A256CBC-HS512": 64, "A128GCM": 16, "A192GCM": 24, "A256GCM": 32,
+           "C20P": 32, "XC20P": 32}
 DIR_KEY = {16: "oct16", 32: "oct32", 64: "oct64"}
 
 
 def content_encrypt(enc: str, cek: bytes, pt: bytes, aad: bytes):
+    if enc in ("C20P", "XC20P"):
+        from Crypto.Cipher import ChaCha20_Poly1305
+        iv = bytes(range(12 if enc == "C20P" else 24))
+        c = ChaCha20_Poly1305.new(key=cek, nonce=iv)
+        c.update(aad)
+        ct, tag = c.encrypt_and_digest(pt)
+        return iv, ct, tag
     if enc.endswith("GCM"):
         iv = bytes(range(12))
         ct, tag = gcm_encrypt(cek, iv, pt, aad)
@@ -220,7 +263,7 @@ def call_entry(entry: str, value, keyname: str, reg: str):
     'lax' (all algorithms, strict_check_header=False)"""
     from joserfc import jws, jwe, jwt, rfc7797
     from joserfc.rfc7797.registry import JWSRegistry as R7797
-    key = keys()[keyname]
+    key, sender = resolve_key(keyname)
     if entry in ("jws.deserialize_compact", "jws.deserialize_json", "jwt.decode/jws"):
         kw = {}
         if reg == "all":
@@ -247,6 +290,8 @@ def call_entry(entry: str, value, keyname: str, reg: str):
         elif reg == "any1":
             kw = {"registry": jwe.JWERegistry(algorithms=JWE_ALL, verify_all_recipients=False)}
         f = jwe.decrypt_compact if entry.endswith("compact") else jwe.decrypt_json
+        if sender is not None:
+            kw["sender_key"] = sender
         return f(value, key, **kw)
     if entry == "jwt.decode/jwe":
         if reg == "default":
@@ -770,6 +815,8 @@ def stream2_jwe_compact(rng, quick=True):
             for segs in ([hs, ek, iv, ct, tg], [hs, ek, iv, ct[:-2], tg], [hs, ek, iv, ct, tg[:-2]], [hs, ek, iv[:-2], ct, tg],
                          [hs, ek, iv, "", tg], [hs, ek, iv, ct, ""], [hs, ek, "", ct, tg], [hs, "AA", iv, ct, tg]):
                 for k in (kn, "set:all", "oct16", "oct32", "oct64"):
+                    if n == 32 and k == "oct32" and kn != "oct32":
+                        continue
                     for e in ("jwe.decrypt_compact", "jwt.decode/jwe"):
                         calls.append((e, ".".join(segs), k, "all", "s2/jwe/enc"))
     return calls
@@ -912,4 +959,285 @@ def all_calls(rng, quick=True):
     calls += stream2_jwe_compact(rng, quick)
     calls += stream2_jwe_json(rng, quick)
     calls += stream3(rng, quick)
+    calls += stream_keys(rng, quick)
+    lib_calls, cov = stream_library(rng, quick)
+    calls += lib_calls
+    LAST_COVERAGE.clear(); LAST_COVERAGE.update(cov)
+    return calls
+
+
+LAST_COVERAGE = {}
+
+
+
+# ---------------------------------------------------------------------------
+# round 2: sender keys (ECDH-1PU), callable keys, tokens produced by the library under every
+# registered algorithm (incl. drafts) and then mutated
+# ---------------------------------------------------------------------------
+JWS_ROW_KEY = {"none": "oct32", "HS256": "oct32", "HS384": "oct64", "HS512": "oct64", "RS256": "rsa", "RS384": "rsa", "RS512": "rsa",
+               "PS256": "rsa", "PS384": "rsa", "PS512": "rsa", "ES256": "ec256", "ES384": "ec384", "ES512": "ec521", "ES256K": "ec256k",
+               "EdDSA": "ed25519"}
+
+
+def jwe_row_key(alg):
+    """(recipient key, sender key or None) candidates for a key-management algorithm"""
+    if alg.startswith("RSA"):
+        return [("rsa", None)]
+    if alg in ("A128KW", "A128GCMKW"):
+        return [("oct16", None)]
+    if alg in ("A192KW", "A192GCMKW"):
+        return [("oct24", None)]
+    if alg in ("A256KW", "A256GCMKW"):
+        return [("oct32", None)]
+    if alg == "dir":
+        return [(None, None)]          # by enc
+    if alg.startswith("ECDH-ES"):
+        return [("ec256", None), ("x25519", None), ("ec384", None), ("x448", None)]
+    if alg.startswith("ECDH-1PU"):
+        return [("ec256", "ec256b"), ("x25519", "x25519b"), ("x448", "x448b")]
+    if alg.startswith("PBES2"):
+        return [("oct16", None), ("oct64", None)]
+    raise KeyError(alg)
+
+
+def library_tokens(rng, quick=True):
+    """tokens produced by joserfc itself under every registered alg / enc (incl. drafts).
+    -> (list of dicts, coverage per table row)"""
+    from joserfc import jws, jwe
+    from joserfc.jwk import OctKey
+    ensure_drafts()
+    ks = keys()
+    if "oct24" not in ks:
+        ks["oct24"] = OctKey.import_key({"kty": "oct", "k": b64u(bytes(range(24))), "kid": "oct24"})
+    out = []
+    cov = {}
+    payload = b'{"iss":"a","exp":99999999999}'
+    for alg in [a.name for a in jws.JWSRegistry.algorithms.values()]:
+        kn = JWS_ROW_KEY[alg]
+        row = "jws:" + alg
+        cov[row] = 0
+        try:
+            c = jws.serialize_compact({"alg": alg, "kid": kn}, payload, ks[kn], algorithms=[alg])
+            f = jws.serialize_json({"protected": {"alg": alg}, "header": {"kid": kn}}, payload, ks[kn], algorithms=[alg])
+            g = jws.serialize_json([{"protected": {"alg": alg}, "header": {"kid": kn}}], payload, ks[kn], algorithms=[alg])
+        except Exception as e:  # noqa
+            cov[row] = "producer failed: %r" % (e,)
+            continue
+        out.append({"kind": "jws", "row": row, "alg": alg, "key": kn, "compact": c, "flat": f, "general": g})
+        cov[row] += 3
+    algs = list(jwe.JWERegistry.algorithms["alg"])
+    encs = list(jwe.JWERegistry.algorithms["enc"])
+    for alg in algs:
+        cov["jwe-alg:" + alg] = 0
+    for enc in encs:
+        cov["jwe-enc:" + enc] = 0
+    for alg in algs:
+        enc_list = encs if (not quick or alg in ("dir", "A128KW", "ECDH-ES", "ECDH-1PU")) else \
+            [e for e in encs if e in ("A128CBC-HS256", "A256GCM", "C20P")]
+        for enc in enc_list:
+            for kn, sn in jwe_row_key(alg):
+                if alg == "dir":
+                    kn = {16: "oct16", 24: "oct24", 32: "oct32", 48: None, 64: "oct64"}[ENC_CEK[enc]]
+                    if kn is None:
+                        ks.setdefault("oct48", OctKey.import_key({"kty": "oct", "k": b64u(bytes(range(48))), "kid": "oct48"}))
+                        kn = "oct48"
+                for zip_ in (False, True):
+                    if zip_ and (quick and rng.random() < 0.7):
+                        continue
+                    h = {"alg": alg, "enc": enc, "kid": kn}
+                    if zip_:
+                        h["zip"] = "DEF"
+                    if alg.startswith("PBES2"):
+                        h["p2c"] = 8
+                    kw = {"algorithms": JWE_ALL}
+                    if sn:
+                        kw["sender_key"] = ks[sn]
+                    try:
+                        c = jwe.encrypt_compact(h, payload, ks[kn], **kw)
+                        o = jwe.FlattenedJSONEncryption({k: v for k, v in h.items() if k != "kid"}, payload, None, b"aad")
+                        o.add_recipient({"kid": kn})
+                        f = jwe.encrypt_json(o, ks[kn], **kw)
+                        o = jwe.GeneralJSONEncryption({"enc": enc, **({"zip": "DEF"} if zip_ else {})}, payload, {"alg": alg})
+                        o.add_recipient({"kid": kn, **({"p2c": 8} if alg.startswith("PBES2") else {})})
+                        g = jwe.encrypt_json(o, ks[kn], **kw)
+                    except Exception as e:  # noqa  (e.g. ECDH-1PU+KW with a non-CBC enc is refused by the producer)
+                        cov.setdefault("producer refused", []).append("%s/%s/%s: %s" % (alg, enc, kn, type(e).__name__))
+                        continue
+                    out.append({"kind": "jwe", "row": "jwe-alg:" + alg, "alg": alg, "enc": enc, "key": kn, "sender": sn,
+                                "compact": c, "flat": f, "general": g})
+                    cov["jwe-alg:" + alg] += 3
+                    cov["jwe-enc:" + enc] += 3
+    if isinstance(cov.get("producer refused"), list):
+        cov["producer refused"] = sorted(set(cov["producer refused"]))
+    return out, cov
+
+
+def mutate_json_value(rng, v, depth=0):
+    """a structural mutation somewhere inside a JSON value"""
+    if isinstance(v, dict) and v and rng.random() < 0.8:
+        k = rng.choice(list(v))
+        w = dict(v)
+        r = rng.random()
+        if r < 0.25:
+            w.pop(k)
+        elif r < 0.6 or not isinstance(v[k], (dict, list)):
+            w[k] = rng.choice(SHAPES)
+        else:
+            w[k] = mutate_json_value(rng, v[k], depth + 1)
+        return w
+    if isinstance(v, list) and v and rng.random() < 0.8:
+        i = rng.randrange(len(v))
+        w = list(v)
+        w[i] = mutate_json_value(rng, v[i], depth + 1) if rng.random() < 0.6 else rng.choice(SHAPES)
+        return w
+    return rng.choice(SHAPES)
+
+
+def stream_library(rng, quick=True):
+    toks, cov = library_tokens(rng, quick)
+    calls = []
+    nmut = 3 if quick else 25
+    for t in toks:
+        if t["kind"] == "jws":
+            kn = t["key"]
+            entries = [("jws.deserialize_compact", t["compact"]), ("rfc7797.deserialize_compact", t["compact"]), ("jwt.decode/jws", t["compact"]),
+                       ("jws.deserialize_json", t["flat"]), ("jws.deserialize_json", t["general"]), ("rfc7797.deserialize_json", t["flat"])]
+            keysel = [kn, "set:all", "call:set:all", rng.choice(KEY_NAMES)]
+            for e, v in entries:
+                for k in keysel:
+                    calls.append((e, v, k, "all", "lib/valid"))
+            h = header_of(t["compact"])
+            for _ in range(nmut):
+                m = mutate_json_value(rng, h)
+                calls.append((rng.choice(["jws.deserialize_compact", "rfc7797.deserialize_compact", "jwt.decode/jws"]), with_header(t["compact"], m),
+                              rng.choice(keysel), rng.choice(["all", "lax"]), "lib/mut"))
+                fm = dict(t["flat"]); fm["protected"] = b64u(jdump(mutate_json_value(rng, {"alg": t["alg"]})))
+                calls.append((rng.choice(["jws.deserialize_json", "rfc7797.deserialize_json"]), fm, rng.choice(keysel), "all", "lib/mut"))
+                gm = {"payload": t["general"]["payload"], "signatures": [mutate_json_value(rng, dict(t["general"]["signatures"][0]))]}
+                if isinstance(gm["signatures"][0], dict) and isinstance(gm["signatures"][0].get("signature"), str) and \
+                        isinstance(gm["signatures"][0].get("protected", ""), str) and isinstance(gm["signatures"][0].get("header", {}), dict):
+                    calls.append(("jws.deserialize_json", gm, rng.choice(keysel), "all", "lib/mut"))
+        else:
+            kn, sn = t["key"], t["sender"]
+            suffix = "+s:" + sn if sn else ""
+            keysel = [kn + suffix, "set:all" + ("+s:set:all" if sn else ""), "call:set:all" + suffix, rng.choice(KEY_NAMES) + suffix]
+            if sn:
+                keysel += [kn, kn + "+s:set:empty", kn + "+s:" + rng.choice(KEY_NAMES), kn + "+s:rsa", "set:all+s:" + sn]
+            for e, v in (("jwe.decrypt_compact", t["compact"]), ("jwt.decode/jwe", t["compact"]), ("jwe.decrypt_json", t["flat"]),
+                         ("jwe.decrypt_json", t["general"])):
+                for k in keysel:
+                    calls.append((e, v, k, "all", "lib/valid"))
+            h = header_of(t["compact"])
+            for _ in range(nmut):
+                m = mutate_json_value(rng, h)
+                calls.append((rng.choice(["jwe.decrypt_compact", "jwt.decode/jwe"]), with_header(t["compact"], m), rng.choice(keysel),
+                              rng.choice(["all", "lax"]), "lib/mut"))
+                for base in (t["flat"], t["general"]):
+                    d = dict(base)
+                    which = rng.choice(["protected", "unprotected", "header", "recipients", "other"])
+                    if which == "protected":
+                        d["protected"] = b64u(jdump(mutate_json_value(rng, json.loads(b64u_dec(base["protected"])))))
+                    elif which == "unprotected":
+                        d["unprotected"] = mutate_json_value(rng, dict(base.get("unprotected") or {"alg": t["alg"]}))
+                        if not isinstance(d["unprotected"], dict):
+                            continue
+                    elif which == "header":
+                        if "recipients" in d:
+                            r0 = dict(d["recipients"][0]); r0["header"] = mutate_json_value(rng, dict(r0.get("header") or {"kid": kn}))
+                            if not isinstance(r0["header"], dict):
+                                continue
+                            d["recipients"] = [r0] + list(d["recipients"][1:])
+                        else:
+                            d["header"] = mutate_json_value(rng, dict(d.get("header") or {"kid": kn}))
+                            if not isinstance(d["header"], dict):
+                                continue
+                    elif which == "recipients" and "recipients" in d:
+                        d["recipients"] = rng.choice([[], [{}], d["recipients"] * 2, d["recipients"] + [{"header": {"alg": "dir"}}],
+                                                      [{"header": {"alg": "A128KW"}, "encrypted_key": b64u(bytes(24))}] + d["recipients"]])
+                    else:
+                        k2 = rng.choice(["iv", "ciphertext", "tag", "aad", "encrypted_key"])
+                        d[k2] = rng.choice(["", "A", "!!", "AA", b64u(bytes(12)), b64u(bytes(16)), "\ud800", base.get(k2, "AA")[:-2]])
+                    calls.append(("jwe.decrypt_json", d, rng.choice(keysel), rng.choice(["all", "any1", "lax"]), "lib/mut"))
+    return calls, cov
+
+
+def stream_keys(rng, quick=True):
+    """callable keys, sender keys with skid of every JSON type, kid of every JSON type in every position with key sets"""
+    calls = []
+    payload = b'{"iss":"a"}'
+    good_jws = jws_compact({"alg": "HS256"}, payload, "HS256", "oct32")
+    good_jwe = jwe_dir_compact({"alg": "dir", "enc": "A128GCM"}, payload, "A128GCM", "oct16")
+    flat_jws = {"payload": b64u(payload), **jws_member({"alg": "HS256"}, None, b64u(payload), "HS256", "oct32")}
+    flat_jwe = jwe_dir_json({"alg": "dir", "enc": "A128GCM"}, payload, "A128GCM", "oct16")
+    for c in CALLABLES:
+        for e, v in (("jws.deserialize_compact", good_jws), ("rfc7797.deserialize_compact", good_jws), ("jwt.decode/jws", good_jws),
+                     ("jws.deserialize_json", flat_jws), ("rfc7797.deserialize_json", flat_jws), ("jwe.decrypt_compact", good_jwe),
+                     ("jwt.decode/jwe", good_jwe), ("jwe.decrypt_json", flat_jwe)):
+            calls.append((e, v, c, "all", "keys/callable"))
+    # kid of every JSON type, every position, with key sets
+    kids = KEY_NAMES + ["nope", ""] + [x for x in SHAPES]
+    for kid in kids:
+        tok = jws_compact({"alg": "HS256", "kid": kid}, payload, "HS256", "oct32")
+        for k in ("set:all", "set:oct16", "set:empty", "set:nokid2", "call:set:all"):
+            for e in ("jws.deserialize_compact", "rfc7797.deserialize_compact", "jwt.decode/jws"):
+                calls.append((e, tok, k, rng.choice(["all", "lax"]), "keys/kid"))
+        for prot, hdr in (({"alg": "HS256", "kid": kid}, None), ({"alg": "HS256"}, {"kid": kid}), ({"alg": "HS256", "kid": "oct32"}, {"kid": kid}),
+                          ({"alg": "HS256", "kid": kid}, {"kid": "oct32"}), (None, {"alg": "HS256", "kid": kid})):
+            mem = jws_member(prot, hdr, b64u(payload), "HS256", "oct32", omit_protected=prot is None)
+            for val in ({"payload": b64u(payload), **mem}, {"payload": b64u(payload), "signatures": [mem, mem]}):
+                for k in ("set:all", "set:nokid2", "set:empty"):
+                    for e in ("jws.deserialize_json", "rfc7797.deserialize_json"):
+                        calls.append((e, val, k, "lax", "keys/kid"))
+        tokj = jwe_dir_compact({"alg": "dir", "enc": "A128GCM", "kid": kid}, payload, "A128GCM", "oct16")
+        for k in ("set:all", "set:oct16", "set:empty", "set:nokid2"):
+            calls.append(("jwe.decrypt_compact", tokj, k, "lax", "keys/kid"))
+            calls.append(("jwt.decode/jwe", tokj, k, "lax", "keys/kid"))
+        for where in ("protected", "unprotected", "header"):
+            for general in (False, True):
+                prot = {"alg": "dir", "enc": "A128GCM"}
+                un = hd = None
+                if where == "protected":
+                    prot["kid"] = kid
+                elif where == "unprotected":
+                    un = {"kid": kid}
+                else:
+                    hd = {"kid": kid}
+                d = jwe_dir_json(prot, payload, "A128GCM", "oct16", unprotected=un, header=hd, general=general)
+                for k in ("set:all", "set:oct16", "set:nokid2"):
+                    calls.append(("jwe.decrypt_json", d, k, "lax", "keys/kid"))
+    # ECDH-1PU: skid of every JSON type in every position, sender given as Key / KeySet
+    from joserfc import jwe
+    ks = keys()
+    for rk, sk in (("ec256", "ec256b"), ("x25519", "x25519b")):
+        for alg, enc in (("ECDH-1PU", "A128GCM"), ("ECDH-1PU+A128KW", "A128CBC-HS256"), ("ECDH-1PU+A128KW", "A128GCM")):
+            try:
+                base = jwe.encrypt_compact({"alg": alg, "enc": enc}, payload, ks[rk], algorithms=JWE_ALL, sender_key=ks[sk])
+            except Exception:  # noqa  (the producer refuses KW + non-CBC)
+                base = with_header(jwe.encrypt_compact({"alg": "ECDH-1PU+A128KW", "enc": "A128CBC-HS256"}, payload, ks[rk], algorithms=JWE_ALL,
+                                                       sender_key=ks[sk]), {"alg": alg, "enc": enc, "epk": dict(EPK_EC if rk == "ec256" else EPK_X)})
+            h0 = header_of(base)
+            senders = [sk, "set:all", "set:empty", "set:nokid2", "rsa", "oct16", "ed25519", "ec384", "x448", rk]
+            for skid in [None, sk, rk, "rsa", "oct16", "nope", ""] + list(SHAPES):
+                h = dict(h0)
+                if skid is not None:
+                    h["skid"] = skid
+                tok = with_header(base, h)
+                hs, ek, iv, ct, tg = tok.split(".")
+                for s in (senders if skid in (None, sk, "rsa") or not quick else rng.sample(senders, 3)):
+                    for k in (rk, "set:all"):
+                        calls.append(("jwe.decrypt_compact", tok, "%s+s:%s" % (k, s), rng.choice(["all", "lax"]), "keys/skid"))
+                    for where in ("unprotected", "header"):
+                        hh = {m: v for m, v in h.items() if m != "skid"}
+                        d = {"protected": b64u(jdump(hh)), "iv": iv, "ciphertext": ct, "tag": tg}
+                        r = {"encrypted_key": ek} if ek else {}
+                        if skid is not None:
+                            if where == "header":
+                                r["header"] = {"skid": skid}
+                            else:
+                                d["unprotected"] = {"skid": skid}
+                        d.update(r)
+                        calls.append(("jwe.decrypt_json", d, "%s+s:%s" % (rk, s), rng.choice(["all", "lax", "any1"]), "keys/skid"))
+                # no sender key at all
+                calls.append(("jwe.decrypt_compact", tok, rk, "all", "keys/skid"))
+                calls.append(("jwt.decode/jwe", tok, rk, "all", "keys/skid"))
     return calls
